@@ -73,9 +73,11 @@ def print_expr(e, prec=0):
     if k == "last":
         return "$last"
     if k == "not":
-        return "!" + print_expr(e[1], 10)
+        s = "!" + print_expr(e[1], 10)
+        return "(" + s + ")" if prec >= 10 else s      # a unary operator applies to a math_atom only
     if k == "neg":
-        return "-" + print_expr(e[1], 10)
+        s = "-" + print_expr(e[1], 10)
+        return "(" + s + ")" if prec >= 10 else s
     if k == "bin":
         op = e[1]
         p = PREC[op]
